@@ -39,6 +39,15 @@ CLAIMED = {
         "Values are interchange data with ints under 1000 digits. Trusts the classification of type forms into supported/unsupported taken from docs/index.md.",
         "DESIGN.md section 5, C04",
     ),
+    'C05': (
+        "Hypothesis type-directed generation; round-trip oracle (from_data . into_data = id, re-serialisation stable) + exact-type interchange-only validity predicate; reference interpreter used only to exclude ambiguous untagged unions",
+        "For every generated type and value built from it: into_data output is interchange-only (exact concrete types, bool stays bool), "
+        "re-parsing it gives the same typed value (modulo excluded fields), re-serialising gives the same data (multiset at set positions), "
+        "and the dataclass method agrees with the function; dataclass layout/rename/alias/out_name configurations are generated. "
+        "One recorded finding (D9) and one (D31) are reported as KNOWN-FINDING.",
+        "Trusts pv/same.py equality and the reference's union-member trace used for the ambiguous-union exclusion; excluded cases are counted in the evidence.",
+        "DESIGN.md section 5, C05",
+    ),
     'C20': (
         "exhaustive enumeration of a finite name set + Hypothesis search, against an independent canonical renderer",
         "Every 1-3 word name over a 3-letter alphabet (47 988 names) is swept exhaustively through all 5 styles and all 25 style "
